@@ -87,6 +87,12 @@ def check_class_maps(ctx, rule, m):
         ctx.check("isinstance(result, CylindricalSurfaceHistogram)" in tt and "result.radius = self.get_bin_right_edges(0)[-1]" in tt, rule,
                   "CylindricalHistogram.projection:radius", "surface projection gets radius = last rho edge",
                   "the cylinder-surface projection no longer takes its radius from the last rho edge", cy.where)
+    mixp = m.cls("TransformedHistogramMixin").methods["projection"]
+    rets_ = [n.value for n in ast.walk(mixp.node) if isinstance(n, ast.Return)]
+    okm_ = bool(rets_) and all(isinstance(v, ast.Call) and U(v.func) == "HistogramND.projection" and U(v.args[0]) == "self" for v in rets_)
+    ctx.check(okm_, rule, "TransformedHistogramMixin.projection:returns-the-marginal", "every path returns HistogramND.projection(self, *axes, ...) unchanged",
+              f"the mixin post-processes the projection it returns ({[U(v)[:50] for v in rets_]}): names / contents of the marginal are then not those of the kept axes",
+              mixp.where)
     return n
 
 
